@@ -46,7 +46,7 @@ ASSUMPTIONS = [
     'The node assigns real ids (>= 1000) on alloc, as a real node does; interpreter-local placeholder ids are mapped by position.',
     'Independent key hashing covers the key types generated here (int, string, bytes, pair int string, pair int int int string), using the legacy (nested-pair) packing for combs, as the protocol does for big_map keys.',
 ]
-EXPECTED_PROBES = ['static_run_code_transaction', 'long_lived_session_reused', 'session_switched_network', 'parameter_big_map_session', 'empty_list_value_on_chain_read', 'sibling_key_types_same_text', 'read_chain_only_key', 'update_chain_only_key', 'remove_chain_only_key', 'reinsert_after_remove', 'read_after_local_remove_of_chain_key',
+EXPECTED_PROBES = ['two_versions_of_one_fresh_big_map_stored', 'big_map_inside_option_storage', 'static_run_code_transaction', 'long_lived_session_reused', 'session_switched_network', 'parameter_big_map_session', 'empty_list_value_on_chain_read', 'sibling_key_types_same_text', 'read_chain_only_key', 'update_chain_only_key', 'remove_chain_only_key', 'reinsert_after_remove', 'read_after_local_remove_of_chain_key',
                    'commit_with_removals', 'abandoned_session', 'failed_cell_midway', 'transient_on_read', 'second_txn_reads_first_txn_writes', 'dup_divergent']
 
 URI = 'http://node0.sim:8732'
@@ -246,6 +246,12 @@ def gen(seed, tier):
         if static:
             # the whole transaction is one contract executed through Interpreter.run_code (the non-REPL entry point)
             st['static'] = rng.choice(['readable', 'optimized', 'legacy_optimized'])
+        elif src != 'param' and rng.random() < 0.15:
+            st['wrap'] = 'option'  # storage (option (big_map ..)): the lazily initialised big_map idiom
+        elif src in ('literal', 'empty') and rng.random() < 0.3:
+            # at the end the fresh big_map is DUPed, the two copies are updated differently and both are stored (two storage slots)
+            vn_a, vn_b = newval('s'), newval('s')
+            st['dup_slots'] = {'k_a': rng.randrange(len(keys)), 'v_a': vn_a, 'k_b': rng.randrange(len(keys)), 'v_b': vn_b, 'rm_b': rng.random() < 0.3}
         if src == 'literal':
             lit = {}
             for ki in sorted(rng.sample(range(len(keys)), rng.randint(0, len(keys)))):
@@ -501,6 +507,17 @@ def execute(scn, want_log=False):
                     r0 = run(f'parameter (big_map {K} {V}) ; storage (big_map {K} {V}) ; code {{ CDR ; NIL operation ; PAIR }}')
                     r1 = run(f'BEGIN {lit} {{}}')
                     r2 = run('CAR')
+                elif st.get('wrap') == 'option':
+                    sess['wrap'] = 'option'
+                    r0 = run(f'parameter unit ; storage (option (big_map {K} {V})) ; code {{ CDR ; NIL operation ; PAIR }}')
+                    r1 = run(f'BEGIN Unit (Some {lit})')
+                    r2 = run(f'CDR ; IF_NONE {{ EMPTY_BIG_MAP {K} {V} }} {{}}')
+                    bump('big_map_inside_option_storage')
+                elif st.get('dup_slots'):
+                    sess['dup_slots'] = st['dup_slots']
+                    r0 = run(f'parameter unit ; storage (pair (big_map {K} {V}) (big_map {K} {V})) ; code {{ CDR ; NIL operation ; PAIR }}')
+                    r1 = run(f'BEGIN Unit (Pair {lit} {{}})')
+                    r2 = run('CDR ; CAR')
                 else:
                     r0 = run(f'parameter unit ; storage (big_map {K} {V}) ; code {{ CDR ; NIL operation ; PAIR }}')
                     r1 = run(f'BEGIN Unit {lit}')
@@ -540,8 +557,64 @@ def execute(scn, want_log=False):
                     sess = None
                     continue
                 ld = rs.canon_lazy_diff(ld_raw)
+            elif op == 'commit' and sess.get('dup_slots'):
+                ds = sess['dup_slots']
+                Kt, Vt = KTYPE_M[sess['ktype']], VTYPE_M[vtype]
+
+                def _k(i):
+                    return key_michelson(sess['ktype'], keys[i])
+
+                upd_a = f'PUSH {Vt} {val_michelson(vtype, ds["v_a"])} ; SOME ; PUSH {Kt} {_k(ds["k_a"])} ; UPDATE'
+                upd_b = (f'NONE {Vt} ; PUSH {Kt} {_k(ds["k_b"])} ; UPDATE' if ds['rm_b'] else
+                         f'PUSH {Vt} {val_michelson(vtype, ds["v_b"])} ; SOME ; PUSH {Kt} {_k(ds["k_b"])} ; UPDATE')
+                res = run(f'DUP ; {upd_a} ; SWAP ; {upd_b} ; SWAP ; PAIR ; NIL operation ; PAIR ; COMMIT')
+                rr = rs.render_result(res)
+                judged[0] += 1
+                bump('two_versions_of_one_fresh_big_map_stored')
+                if res.error is not None:
+                    violate('commit', 'commit-raises', error=rr['error'])
+                    sess = None
+                    continue
+                found = find_lazy_diff(rr['instr'])
+                ld2 = found[0] if found else None
+                try:
+                    flat = flatten_pairs(found[1]['value'])['args']  # (operations, slot0, slot1) whatever the comb layout
+                    slots = [a['int'] for a in flat[-2:]]
+                except Exception:  # noqa: BLE001
+                    slots = None
+                base_final = dict(sess['base'])
+                for kk, ov in sess['overlay'].items():
+                    if ov == REMOVED:
+                        base_final.pop(kk, None)
+                    else:
+                        base_final[kk] = ov
+                want_a = dict(base_final)
+                want_a[ds['k_a']] = ds['v_a']
+                want_b = dict(base_final)
+                if ds['rm_b']:
+                    want_b.pop(ds['k_b'], None)
+                else:
+                    want_b[ds['k_b']] = ds['v_b']
+                if not ld2 or len(ld2) != 2 or not slots or len(set(slots)) != 2 or sorted(e['id'] for e in ld2) != sorted(slots):
+                    violate('commit', 'two-slots-diff-shape', lazy_diff_ids=[e.get('id') for e in (ld2 or [])], storage_ids=slots)
+                    sess = None
+                    continue
+                for slot_id, want_slot, name in ((slots[0], want_a, 'copy'), (slots[1], want_b, 'original')):
+                    ent = next(e for e in ld2 if e['id'] == slot_id)
+                    got = {}
+                    for u in ent['diff'].get('updates', []):
+                        if u.get('value') is not None:
+                            got[u['key_hash']] = u['value']
+                        else:
+                            got.pop(u['key_hash'], None)
+                    exp = {H[kk]: val_micheline(vtype, vv) for kk, vv in want_slot.items()}
+                    if ent['diff']['action'] != 'alloc' or got != exp:
+                        violate('commit', f'two-slots-wrong-content:{name}', action=ent['diff']['action'], got=got, expected=exp)
+                        break
+                sess = None
+                continue
             elif op == 'commit':
-                res = run('NIL operation ; PAIR ; COMMIT')
+                res = run(('SOME ; ' if sess.get('wrap') == 'option' else '') + 'NIL operation ; PAIR ; COMMIT')
                 rr = rs.render_result(res)
                 if res.error is not None:
                     violate('commit', 'commit-raises', error=rr['error'])
@@ -745,6 +818,11 @@ def simplify(scn):
             if st.get(key):
                 c = cp()
                 del c['steps'][i][key]
+                yield c
+        for fld in ('wrap', 'dup_slots'):
+            if st['op'] == 'begin' and st.get(fld):
+                c = cp()
+                del c['steps'][i][fld]
                 yield c
         if st['op'] == 'begin' and st.get('lit'):
             c = cp()
